@@ -8,7 +8,9 @@
 //! single-quoted JavaScript string literal, the content of <title>), map entries sorted by the
 //! rendered key, and two counters over the whole page:
 //!   (page (title "T'") (endpoint "E'") (sub none|"S'") (headers ("K'" "V'")…) (ws ("K'" "V'")…)
-//!         (closers N) (comments N))
+//!         (members (NAME COMMA)…) (closers N) (comments N))
+//!       members = the properties of the object literal given to createGraphiQLFetcher in page
+//!       order, COMMA = true when a comma follows the property
 //!       closers = occurrences of `</script` (ASCII case-insensitive; the template itself has 2),
 //!       comments = occurrences of `<!--` (the template has none)
 //!   (unparsed "what")   the page does not have the expected shape around a position
@@ -84,18 +86,37 @@ impl<'a> Scan<'a> {
 
 fn extract(page: &str) -> Result<Sexp, String> {
     let mut s = Scan { page, at: 0 };
+    // members of the object literal passed to createGraphiQLFetcher, each with the flag
+    // "followed by a comma"
+    let mut members: Vec<Sexp> = vec![];
+    fn comma(s: &mut Scan<'_>) -> Sexp {
+        s.skip_ws();
+        if s.peek_is(",") {
+            s.at += 1;
+            atom("true")
+        } else {
+            atom("false")
+        }
+    }
     s.find("<title>")?;
     let title = s.until('<')?;
     s.expect("/title>")?;
     s.find("url: createUrl('")?;
     let endpoint = s.until('\'')?;
-    s.expect("),")?;
-    s.find("fetch: customFetch,")?;
+    s.expect(")")?;
+    let c = comma(&mut s);
+    members.push(list(vec![atom("url"), c]));
+    s.skip_ws();
+    s.expect("fetch: customFetch")?;
+    let c = comma(&mut s);
+    members.push(list(vec![atom("fetch"), c]));
     s.skip_ws();
     let sub = if s.peek_is("subscriptionUrl: createUrl('") {
         s.expect("subscriptionUrl: createUrl('")?;
         let b = s.until('\'')?;
-        s.expect("),")?;
+        s.expect(")")?;
+        let c = comma(&mut s);
+        members.push(list(vec![atom("subscriptionUrl"), c]));
         Some(b)
     } else {
         None
@@ -103,14 +124,20 @@ fn extract(page: &str) -> Result<Sexp, String> {
     s.skip_ws();
     let headers = if s.peek_is("headers: {") {
         s.expect("headers: {")?;
-        s.entries()?
+        let e = s.entries()?;
+        let c = comma(&mut s);
+        members.push(list(vec![atom("headers"), c]));
+        e
     } else {
         vec![]
     };
     s.skip_ws();
     let ws = if s.peek_is("wsConnectionParams: {") {
         s.expect("wsConnectionParams: {")?;
-        s.entries()?
+        let e = s.entries()?;
+        let c = comma(&mut s);
+        members.push(list(vec![atom("wsConnectionParams"), c]));
+        e
     } else {
         vec![]
     };
@@ -131,6 +158,7 @@ fn extract(page: &str) -> Result<Sexp, String> {
             node("sub", vec![sub.map(st).unwrap_or(atom("none"))]),
             node("headers", ents(headers)),
             node("ws", ents(ws)),
+            node("members", members),
             node("closers", vec![num(closers)]),
             node("comments", vec![num(comments)]),
         ],
